@@ -28,6 +28,8 @@ def harness_list(tier, seed=0):
     for n in (rts if tier == 'thorough' else [rts[seed % 2], rts[2 + seed % 2]]):
         hs.append(Harness('verif_kani::c08::' + n, 'C08', timeout=2400, bounds='two adjacent symbolic in-range coefficients at a symbolic position, zeros elsewhere'))
     if tier == 'thorough':
+        hs.append(Harness('verif_kani::c08::c08_hint_k3_counts', 'C08', timeout=3000, loop_rules=[(r'hint_bit_unpack::<3>', 10)],
+                          bounds='K=3, omega=6; the three count bytes + two position bytes symbolic (count patterns that need a middle polynomial)'))
         hs.append(Harness('verif_kani::c08::c08_hint_repack', 'C08', timeout=7200, mem_gb=24, loop_rules=HINT_RULES[:1], best_effort=True, bounds='K=2, omega=8; 6 symbolic bytes; real hint_bit_pack on the decoded hint'))
         hs.append(Harness('verif_kani::c08::c08_hint_exhaustive_k2_w4', 'C08', timeout=7200, mem_gb=24, loop_rules=[(r'hint_bit_unpack::<2>', 8)], best_effort=True,
                           bounds='every byte string of the hint section at K=2, omega=4'))
@@ -76,6 +78,13 @@ def run(run, scr, tier, seed, only=None):
             run.violation('layout-' + lbad[0]['name'][:50], f'{lbad[0]["name"]}: {lbad[0]["detail"][:300]}; confirmed natively: {conf[0]}', path)
         else:
             run.inconclusive.append(f'layout obligation fails but the differential tests agree with the reference: {lbad[0]["name"]}: {lbad[0]["detail"][:200]}')
+    if any(r['verdict'] == 'refused' and r['name'].startswith('hint_bit_unpack') for r in lres) and tier != 'thorough':
+        # the loop lemmas (K, omega symbolic) do not apply to a restructured decoder: all window harnesses decide instead of the seed-selected one
+        have = {h.name for h in hs}
+        for n in ('c08_hint_window_0', 'c08_hint_window_2', 'c08_hint_window_4'):
+            if 'verif_kani::c08::' + n not in have:
+                hs.append(Harness('verif_kani::c08::' + n, 'C08', timeout=2400, loop_rules=HINT_RULES[:1], bounds='K=2, omega=8; both count bytes + 4 consecutive index bytes symbolic'))
+        hs.append(Harness('verif_kani::c08::c08_hint_k3_counts', 'C08', timeout=3000, loop_rules=[(r'hint_bit_unpack::<3>', 10)], bounds='K=3, omega=6; the three count bytes + two position bytes symbolic'))
     results = vlib.run_kani(scr, hs, jobs=7)
     run.add_kani_results(results)
     # every run also executes the native codec differential (real (K, omega), every malformation class): cheap, and it is what confirms a solver counterexample
